@@ -508,11 +508,11 @@ def term_encode(v, out):
     return f"CEncode {cjson(v)} [{'; '.join(tb)}] {cstr(out)}"
 
 
-def term_eval(text, obs):
+def term_eval(text, obs, image=False):
     o = {"parse": "OParse", "eval": "OEval", "other": "OOther"}.get(obs[0])
     if o is None:
         o = f"(OVal {cjson(obs[1])})"
-    return f"CEval {cstr(text)} {o}"
+    return f"{'CEvalImg' if image else 'CEval'} {cstr(text)} {o}"
 
 
 # ---- checking one value --------------------------------------------------------------------------------
@@ -727,12 +727,12 @@ def gen_values(ctx: Ctx):
     # the unit tests' pinned literals
     yield {"a_string": "testing", "a_quoted_string": 'you should "test"', "an_int_str": "29", "a_float": 82.34,
            "complex_list": ["a", 2, "4", 3.2, "53.4", True, False], "none": None, "empty_list": [], "e": {}}, ROUTES
-    n_str = 700 if quick else 12000
+    n_str = 700 if quick else 9000
     for k in range(n_str):
         s = rand_string(rng, allow_eq=False)
         shape = ("value", "key", "list", "mapval")[k % 4]
         yield wrap(shape, s), (ROUTES if k % 3 == 0 else ("direct",))
-    n_val = 500 if quick else 8000
+    n_val = 500 if quick else 6000
     for k in range(n_val):
         v = rand_value(rng)
         yield v, (ROUTES if k % 4 == 0 else ("direct",))
@@ -747,6 +747,7 @@ def run(ctx: Ctx):
     ev_cases, ev_terms = [], []
     num_cases, num_terms = [], []
     texts = []
+    images = set()          # encode_cel outputs of values meeting the hypotheses: the model must judge these
 
     # regression corpus of texts first
     for c in corpus_cases("C11"):
@@ -770,10 +771,12 @@ def run(ctx: Ctx):
         else:
             ctx.count("corr:encode:not-modelable(-0.0)")
         texts.append(out)
+        if out and hypotheses_hold(v):
+            images.add(out)
 
     # CelLit: encoder outputs, mutations of them, random texts over the alphabet
     base = [t for t in texts if t and len(t) < 400]
-    n_mut = 1500 if ctx.quick() else 30000
+    n_mut = 1500 if ctx.quick() else 20000
     for k in range(n_mut):
         texts.append(mutate(rng, rng.choice(base)) if k % 5 else random_text(rng))
     seen = set()
@@ -788,7 +791,9 @@ def run(ctx: Ctx):
             continue
         ctx.count("eval-obs:" + obs[0])
         ev_cases.append({"kind": "text", "text": t})
-        ev_terms.append(term_eval(t, obs))
+        ev_terms.append(term_eval(t, obs, image=t in images))
+        if t in images:
+            ctx.count("corr:eval:encoder-images")
         ctx.cases += 1
 
     # numerals: recogniser, float(), int()
